@@ -46,6 +46,13 @@ def _params(stacks):
                         if not racer and not kw and wl in ("idle", "queued", "running"):
                             out.append(dict(layers=layers, workload=wl, wait=wait, kw=kw, racer=racer, base="manual",
                                             conc=True))
+    # a delegate that keeps accepting after its shutdown() (user-written Executor overriding only
+    # submit()): every library layer must still refuse by itself
+    for layers in stacks:
+        if "asyncio" in layers or layers == ():
+            continue
+        for wait in (True, False):
+            out.append(dict(layers=layers, workload="idle", wait=wait, kw=(), racer=False, base="manual", lenient=True))
     return out
 
 
@@ -63,6 +70,8 @@ def body(mc, p):
     st = Stack(mc, layers, base=p["base"], workers=1 if p["base"] != "manual" else 1 if wl in ("running", "between_retries", "polling", "done") else 0,
                opts=opts)
     ex = st.top
+    if p.get("lenient"):
+        st.base.lenient_shutdown = True
     if "asyncio" in p["layers"]:
         ex = Executors.with_asyncio(ex)
         st.execs.append(ex)
@@ -122,6 +131,8 @@ def body(mc, p):
         mc.emit("after.shutdown", alive=tuple(alive))
         # refuses afterwards, on every layer of the chain
         for k, e in enumerate(st.execs):
+            if p.get("lenient") and e is st.base:
+                continue                    # the stand-in delegate is lenient by construction
             try:
                 e.submit(plain)
                 mc.emit("late.submit", layer=k, out="accepted")
